@@ -48,7 +48,7 @@ class C03(Prop):
     def cases(self, tier, seed):
         import numpy as np
         rng = np.random.RandomState(1000003 * (seed + 1) + 3)
-        n_inst = 12 if tier == 'quick' else 70
+        n_inst = 10 if tier == 'quick' else 40
         iters = 5000 if tier == 'quick' else 50000
         insts = []
         for i in range(n_inst):
@@ -67,7 +67,7 @@ class C03(Prop):
             for t in tpl:
                 p = [attrs[j] for j in t]
                 m = IC.prod(sz[a] for a in p)
-                base = {'low': 0.05, 'medium': 0.4, 'high': 1.5}[regime] * N / m
+                base = {'low': 0.05, 'medium': 0.4, 'high': 0.8}[regime] * N / m
                 meas.append(dict(proj=p, qkind=str(rng.choice(QKINDS)), form=str(rng.choice(FORMS)), qseed=int(rng.randint(1 << 30)),
                                  noise=float(base * rng.choice([0.5, 1.0, 2.0, 4.0]))))
             insts.append(dict(template=tname, attrs=attrs, sizes=sizes, N=N, regime=regime, meas=meas, seed=int(rng.randint(1 << 30)),
@@ -125,6 +125,7 @@ class C03(Prop):
             return T, Lm
 
         T, Lm = run(case['iters'])
+        first_Lm = Lm
         p_ref, L_ref, g_ref = IC.solve_simplex_ls(A, b, T)
         L_uni = IC.ls_loss(A, b, np.full(n, T / n))
         tol = 1e-3 * (L_uni - L_ref) + 1e-9
@@ -137,7 +138,15 @@ class C03(Prop):
             if T2 == T:
                 Lm = Lm2
                 det.update(L_model=Lm, excess_over_tol=(Lm - L_ref) / tol)
-        out = [('not-worse-than-uniform-start', Lm <= L_uni + 1e-9 * (1 + abs(L_uni)), det)]
+        slack = 1e-9 * (1 + abs(L_uni))
+        out = [('not-worse-than-uniform-start', max(Lm, first_Lm) <= L_uni + slack, det)]
+        # "never a worse fit than the uniform starting point": also when stopped after very few iterations
+        few = []
+        for it in (1, 2, 7, 40):
+            Tf, Lf = run(it)
+            Luf = IC.ls_loss(A, b, np.full(n, Tf / n))
+            few.append(dict(iters=it, L_model=Lf, L_uniform=Luf, ok=bool(Lf <= Luf + 1e-9 * (1 + abs(Luf)))))
+        out.append(('few-iterations-not-worse-than-uniform-start', all(f['ok'] for f in few), dict(solver=case['solver'], runs=few)))
         if g_ref > 0.1 * tol:
             # the harness's own certificate is not sharp enough to decide the bracket on this instance: say so, decide nothing
             out.append(('skipped-reference-not-certified', True, det))
